@@ -161,7 +161,25 @@ void TypedArgBase::assignValue( bool ignore_cardinality, const string& value,
       throw std::runtime_error( "argument '" + format::toString( mKey)
             + "' does not support invertion");
 
-   assign( value, inverted);
+   if (ignore_cardinality && mpCardinality)
+   {
+      // values from a file or an environment variable are not counted at all:
+      // for a list of values, assign() itself counts the second and all
+      // following values, so the cardinality object must be out of the way
+      // while the value is assigned
+      struct RestoreCardinality
+      {
+         std::unique_ptr< ICardinality>&  mDest;
+         std::unique_ptr< ICardinality>   mSaved;
+         ~RestoreCardinality() { mDest = std::move( mSaved); }
+      } restore{ mpCardinality, std::move( mpCardinality)};
+
+      assign( value, inverted);
+   } else
+   {
+      assign( value, inverted);
+   } // end if
+
    activateConstraints();
 
 } // TypedArgBase::assignValue
